@@ -699,8 +699,23 @@ def oracle_c09(pc, run, fails):
                               % (m, members[0], k, st[k:k + 1], ref[k:k + 1])))
             ph = rec_phantoms(run, *m)
             if ph and not rec_phantoms(run, *members[0]):
-                fails.append(("phantom_tick_forwarding_rebind", "recorder %s (nested variant) is run at %s with an input that is `modified` but "
-                              "not valid; the inlined variant never is" % (m, ph)))
+                # The known shape (KF-phantom-tick-forwarding-rebind-C09): the recorder reads a nested node whose
+                # child's terminal is itself a nested / try_except node (depth >= 2), and the single phantom is
+                # at that nested node's FIRST evaluation.  Anything else is a violation of its own.
+                src = pc["nodes"][m]["ins"][0][0]
+                owner = (m[0], src)
+                deep = False
+                if owner in pc["nest"]:
+                    ch, outn, _b = pc["nest"][owner]
+                    deep = outn >= 0 and pc["nodes"].get((ch, outn), {}).get("kind") in (1, 2)
+                first_eval = next((l[3] for l in run if l[0] == 11 and (l[1], l[2]) == owner), None)
+                if deep and ph == [first_eval]:
+                    fails.append(("phantom_tick_forwarding_rebind", "recorder %s reads nested node %s (depth >= 2): at the node's first "
+                                  "evaluation (%s) its input is `modified` but not valid; the inlined variant never is" % (m, owner, ph)))
+                else:
+                    fails.append(("phantom_tick", "recorder %s (nested variant, producer %s, depth>=2: %s, first evaluation %s) is run at %s "
+                                  "with an input that is `modified` but not valid; the inlined variant never is"
+                                  % (m, owner, deep, first_eval, ph)))
 
 
 def oracle_c15(pc, runs, fails):
@@ -882,7 +897,7 @@ def oracle(prop, case, out):
 
 PROP_KINDS = {
     "C09": {"nested_differs", "child_early", "child_clock_ahead", "child_outside_owner", "cycle_order", "node_outside_cycle",
-            "wake_lost", "stale_read", "run_stopped", "trace_shape", "build_error", "phantom_tick_forwarding_rebind"},
+            "wake_lost", "stale_read", "run_stopped", "trace_shape", "build_error", "phantom_tick_forwarding_rebind", "phantom_tick"},
     "C15": {"run_stopped", "uncaptured_swallowed", "error_tick_missing", "error_tick_twice", "error_message", "error_tick_spurious",
             "error_tick_secondary", "lost_tick_after_captured_error", "not_evaluated", "interference", "clean_run_failed",
             "child_early", "wake_lost", "build_error", "wake_lost_after_captured_error", "tick_swallowed_after_captured_error"},
